@@ -149,3 +149,9 @@ def may_raise_limit_error(module, stmts):
     for s_ in stmts:
         names |= called_names(s_)
     return bool(names & limit_raisers()) or bool(names & OPAQUE_CALLS)
+
+
+def dispatchers():
+    """functions of vm.py that call self._execute_opcode (the run loops)"""
+    vm = source().modules["microjs.vm"].tree
+    return [f for f in ast.walk(vm) if isinstance(f, ast.FunctionDef) and calls_to(f, "_execute_opcode")]
